@@ -227,6 +227,8 @@ def _key(e, param, variant, what):
         return 'zoom:out-noncontiguous-RuntimeError'
     if name == 'convolve1d' and what == 'valid-rejected':
         return 'convolve1d:axis0-valid-out-rejected'
+    if name == 'convolve1d' and variant == 'wrong_shape_t' and what == 'invalid-accepted':
+        return 'convolve1d:axis0-transposed-shape-out-accepted'
     if name == 'convolve1d' and what in ('differs', 'not-returned'):
         return 'convolve1d:axis0-out-written-transposed'
     if name in ('open', 'close') and param == 'output':
@@ -488,7 +490,7 @@ def cases(rng, tier):
     out.append(dict(stream='cover'))
     for _ in range(dict(quick=800, thorough=20000, search=4000)[tier]):
         out.append(_rand_getout(rng))
-    nin = dict(quick=1, thorough=10, search=3)[tier]
+    nin = dict(quick=1, thorough=40, search=3)[tier]
     import mahotas  # noqa
     pairs = [(fn, p) for fn, p in _pairs() if fn in reg_]
     for fn, param in pairs:
